@@ -12,3 +12,5 @@ pub mod machine_out;
 pub mod c10;
 pub mod c11;
 pub mod c13;
+pub mod c18;
+pub mod c19;
